@@ -4,7 +4,7 @@
    data (signed tensors included), on the iteration caps or on when the loops stop.
    vnn v = every entry of the vector >= 0;  mnn M = every entry of the matrix >= 0;  vge eps v = every entry >= eps. *)
 From Coq Require Import List Arith Bool Reals QArith ZArith Lra.
-From TLV Require Import Base.Shape Base.PyList Base.Tensor Base.Ops Model.Nonneg Model.NonnegSign Model.NonnegFlow Model.NonnegOptions Proofs.NonnegProofs Proofs.NonnegProofs2 Proofs.NonnegSignProofs Proofs.NonnegFlowProofs Proofs.NonnegOptionsProofs Model.NonnegP2Ls Proofs.NonnegP2LsProofs Proofs.NonnegFlowPeelProofs Model.NonnegCcpSpec Proofs.NonnegCcpSpecProofs Proofs.NonnegRound7Proofs.
+From TLV Require Import Base.Shape Base.PyList Base.Tensor Base.Ops Model.Nonneg Model.NonnegSign Model.NonnegFlow Model.NonnegOptions Proofs.NonnegProofs Proofs.NonnegProofs2 Proofs.NonnegSignProofs Proofs.NonnegFlowProofs Proofs.NonnegOptionsProofs Model.NonnegP2Ls Proofs.NonnegP2LsProofs Proofs.NonnegFlowPeelProofs Model.NonnegCcpSpec Proofs.NonnegCcpSpecProofs Proofs.NonnegRound7Proofs Model.NonnegMask Proofs.NonnegMaskProofs.
 Import ListNotations.
 Open Scope R_scope.
 
@@ -522,3 +522,45 @@ Example C10_hals_shift_then_clip_order_matters :
   hals_row_shift_after Qops 0%Q (Some (1 # 2)%Q) None [[(-1)%Q]] [[2%Q]] [[1%Q]] 0 = [[(-1 # 4)%Q]] /\
   hals_row_shift_after Qops 0%Q None None [[(-1)%Q]] [[2%Q]] [[1%Q]] 0 = hals_row Qops 0%Q None None [[(-1)%Q]] [[2%Q]] [[1%Q]] 0.
 Proof. exact hals_order_matters. Qed.
+
+(* ---- round 8: two branches of the anchored code outside Model/Nonneg.v (Model/NonnegMask.v) *)
+(* non_negative_parafac WITH A MASK: before every mode update the unobserved entries are replaced by the current reconstruction
+   (tensor * mask + cp_to_tensor(..., mask = 1 - mask)); ANY tensor, ANY mask values, any iteration cap / stopping rule *)
+Theorem C10_non_negative_parafac_masked : forall (T mask : tensor R) (eps : R) (stop : nat -> @cp_state R -> bool)
+         (normalize : bool) (modes : list nat) (n_iter_max : nat) (w : list R) (Fs : list (list (list R))),
+  0 < eps -> vnn w -> Forall mnn Fs ->
+  let out := non_negative_parafac Rops nrm2 eps (fun _ => cp_mu_num_mask Rops T mask) (fun _ => cp_mu_den Rops) stop normalize modes n_iter_max (w, Fs) in
+  vnn (fst out) /\ Forall mnn (snd out).
+Proof. exact non_negative_parafac_masked_nonneg. Qed.
+Print Assumptions C10_non_negative_parafac_masked.
+
+(* the implementation overwrites `tensor` by the imputed tensor at every mode update; for a 0/1 mask imputing an imputed tensor equals imputing the original one, so the
+   numerator oracle cp_mu_num_mask (a function of the ORIGINAL tensor and the current state) is what the code computes *)
+Theorem C10_masked_imputation_idempotent : forall (T mask : tensor R) (st' st : @cp_state R),
+  (forall p, (p < prod (shape T))%nat -> nth p (data mask) 0 = 0 \/ nth p (data mask) 0 = 1) ->
+  impute Rops (impute Rops T mask st') mask st = impute Rops T mask st.
+Proof. exact impute_idem. Qed.
+Print Assumptions C10_masked_imputation_idempotent.
+
+(* hals_nnls from ANY (signed) start: after at least one sweep every row with a non-zero diagonal entry of UtU is >= epsilon ... *)
+Theorem C10_hals_nnls_ge : forall (eps : R) (sp rg : option R) (UtM UtU V : list (list R)) (n k : nat),
+  (k < length UtM)%nat -> (k < length V)%nat -> feqb Rops (nth k (nth k UtU []) 0) 0 = false ->
+  vge eps (nth k (hals_nnls Rops eps sp rg UtM UtU V (S n)) []).
+Proof. exact hals_nnls_ge. Qed.
+Print Assumptions C10_hals_nnls_ge.
+
+(* ... in particular from the cold start (V=None), whatever tl.solve returned (S0) and although its scaling factor can be negative (Example below) *)
+Theorem C10_hals_nnls_cold_start_ge : forall (eps : R) (sp rg : option R) (UtM UtU S0 : list (list R)) (n k : nat),
+  (k < length UtM)%nat -> (k < length S0)%nat -> feqb Rops (nth k (nth k UtU []) 0) 0 = false ->
+  vge eps (nth k (hals_nnls Rops eps sp rg UtM UtU (hals_cold_start Rops UtM UtU S0) (S n)) []).
+Proof. exact hals_nnls_cold_ge. Qed.
+Print Assumptions C10_hals_nnls_cold_start_ge.
+
+Example C10_hals_cold_start_can_be_negative :
+  hals_cold_start Qops [[(-17 # 10)%Q]; [(-21 # 10)%Q]] [[1%Q; (9 # 10)%Q]; [(9 # 10)%Q; 1%Q]] [[1%Q]; [(-3)%Q]] = [[(-17 # 10)%Q]; [0%Q]] /\
+  hals_nnls Qops 0%Q None None [[(-17 # 10)%Q]; [(-21 # 10)%Q]] [[1%Q; (9 # 10)%Q]; [(9 # 10)%Q; 1%Q]] [[(-17 # 10)%Q]; [0%Q]] 1 = [[0%Q]; [0%Q]].
+Proof. exact hals_cold_start_can_be_negative. Qed.
+Example C10_masked_sweep_computes :
+  let T := mk [2; 2]%nat [(-1)%Q; 2%Q; 3%Q; (-4)%Q] in let mask := mk [2; 2]%nat [1%Q; 0%Q; 1%Q; 1%Q] in
+  data (impute Qops T mask ([1%Q], [[[1%Q]; [2%Q]]; [[1%Q]; [3%Q]]])) = [(-1)%Q; 3%Q; 3%Q; (-4)%Q].
+Proof. exact masked_sweep_computes. Qed.
